@@ -530,7 +530,9 @@ class Spec:
                          "Mhd.C13.at_most_once", "Mhd.C13.at_most_once_single", "Mhd.C13.never_issued",
                          "Mhd.C13.accepted_counts_bounded", "Mhd.C13.ok_only_if_registered_last",
                          "Mhd.C13.window_complete", "Mhd.C13.window_complete_present",
-                         "Mhd.C13.expired_is_stale", "Mhd.C13.above_max_nc_is_stale"]
+                         "Mhd.C13.expired_is_stale", "Mhd.C13.above_max_nc_is_stale",
+                         "Mhd.C13.evicted_classification", "Mhd.C13.never_registered_slot_is_wrong",
+                         "Mhd.C13.registration_policy", "Mhd.C13.issued_nonce_timestamp", "Mhd.C13.no_fault"]
     trusted_base = ["Lean 4 kernel", "axioms: propext, Classical.choice, Quot.sound at most (audited per theorem)",
                     "hand-written model lean/Mhd/Model/Nonce.lean tied to digestauth.c by this run's correspondence",
                     "tools/props/C13.py gen_nonce (REUSE_TIMEOUT, nonce lengths, field widths, nc guard regenerated)",
